@@ -13,13 +13,15 @@ def specs(tier):
         combos += [("JSONAttr", None), ("MemoryBufferedJSON", None), ("BufferedJSON", ["backend", 0]), ("BufferedJSONAttr", ["backend", None])]
     for fam, ctx in combos:
         for which in ("dict", "list"):
-            t = OPS[which]
+            t = OPS[which] + (["exit_ctx"] if ctx else [])  # one thread leaves the buffered context while the other works
             for rel in ("same", "two"):
                 for i, a in enumerate(t):
                     for b in t[i:]:
                         if "filename_set" in (a, b) and rel == "same":
                             continue  # the filename clause is about OTHER objects bound to the old file
-                        out.append({"fam": fam, "which": which, "relation": rel, "op1": a, "op2": b, "ctx": ctx, "variants": False, "cycles": False})
+                        if a == "exit_ctx" and b == "exit_ctx":
+                            continue
+                        out.append({"fam": fam, "which": which, "relation": rel, "op1": a, "op2": b, "ctx": ctx, "variants": False, "cycles": "exit_ctx" in (a, b), **({"outcome_keys": ["leaked_locks"]} if "exit_ctx" in (a, b) else {})})
     return out
 
 
